@@ -540,7 +540,7 @@ def replay(ctx, obj):
     """re-executes what the file records and judges it again: rc 1 reproduces, 0 does not, 2 nothing could be executed"""
     C = gen_consts()
     reproduced, executed, unexecutable = 0, 0, 0
-    seen_runs = set()
+    seen_runs, run_result = set(), {}
 
     def run_key(r):
         return (int(r["seed"]), int(r["rounds"]), int(r["permille"]))
@@ -554,6 +554,7 @@ def replay(ctx, obj):
             continue
         seen_runs.add(run_key(f))
         ex, bad = rerun_and_judge(ctx, C, f, 3, "rf%d" % n)
+        run_result[run_key(f)] = (ex, bool(bad))
         executed += 1 if ex else 0
         unexecutable += 0 if ex else 1
         for x in bad[:5]:
@@ -571,40 +572,46 @@ def replay(ctx, obj):
             continue
         print("recorded mismatch:", str(d.get("what"))[:600])
         dd = d.get("detail") if isinstance(d.get("detail"), dict) else {}
-        did = False
-        # 1. the recorded round / trace itself, through the judge again
+        # 1. the recorded round / trace itself through the judge again.  This is a verdict about that RECORDING (made with the
+        #    library as it was then): it shows whether model and judge still reject it; whether the current build still behaves
+        #    like that is what the re-run (2.) says, and the re-run decides whenever it can be executed
+        emb = None
         if dd.get("round_recording"):
             J = judge_runs([("\n".join(dd["round_recording"]) + "\n", dd.get("label", "rec"), dd.get("run", {}))], C, "rb%d" % n)
             bad = [m for m in J["mism"] if not m["what"].startswith("the harness recorded")] + J["fails"]
             print("  the recorded round, judged again: %d failures / mismatches" % len(bad))
-            for x in bad[:3]:
-                print("   reproduces:", x["what"][:600])
-            did, reproduced = True, reproduced + (1 if bad else 0)
+            for x in bad[:2]:
+                print("    still:", x["what"][:400])
+            emb = bool(bad)
         elif dd.get("trace"):
             tr = [conc.Ev(l.split()[1:]) for l in dd["trace"]]
             res, err = conform_traces([(int(dd["kind_qos"]), tr)], "rb%d" % n)
             if err is None and len(res) == 1:
-                bad = res[0][0] != -1 or res[0][1] != 1
+                emb = res[0][0] != -1 or res[0][1] != 1
                 print("  the recorded thread trace through SrcData.conform again: %s" % (
-                    "rejected at %d (ended idle: %d)" % res[0] if bad else "accepted"))
-                did, reproduced = True, reproduced + (1 if bad else 0)
+                    "rejected at %d (ended idle: %d)" % res[0] if emb else "accepted"))
             else:
                 print("  the recorded thread trace could not be evaluated:", err)
-        # 2. the run it came from, again
+        # 2. the run it came from, again, against the current build
         run = dd.get("run")
-        if isinstance(run, dict) and all(k in run for k in ("seed", "rounds", "permille")) and run_key(run) not in seen_runs:
-            seen_runs.add(run_key(run))
+        has_run = isinstance(run, dict) and all(k in run for k in ("seed", "rounds", "permille"))
+        if has_run and run_key(run) not in seen_runs:
             ex, bad = rerun_and_judge(ctx, C, run, 2, "rr%d" % n)
+            run_result[run_key(run)] = (ex, bool(bad))
+            seen_runs.add(run_key(run))
             for x in bad[:5]:
                 print("   reproduces:", x["what"][:600])
-            did = did or ex
-            reproduced += 1 if bad else 0
-        elif isinstance(run, dict) and all(k in run for k in ("seed", "rounds", "permille")):
-            did = True      # that run was already executed again above
-        if did:
+        ex, rbad = run_result.get(run_key(run), (False, False)) if has_run else (False, False)
+        if ex:
             executed += 1
+            reproduced += 1 if rbad else 0
+            if not rbad:
+                print("  the run it came from does not reproduce it on this build")
+        elif emb is not None:
+            executed += 1
+            reproduced += 1 if emb else 0
         else:
-            print("  the entry carries no run parameters and no recording: nothing to execute; only a full ./check C15 "
+            print("  the entry carries no run parameters and no recording (or neither could be executed): only a full ./check C15 "
                   "re-establishes it")
             unexecutable += 1
     if reproduced:
